@@ -158,54 +158,6 @@ theorem C11_notifier_holds {a : Bool} {s : St} (h : Reachable a s) {m : Side} {t
     (hn : (s.pc t).notifying m = true) : s.lock m = some t :=
   ((inv_reachable h).l.holder m t).1 (notifying_holds hn)
 
-theorem trigOf_after (h1 h2 : List HEv) (u : Tid) (hno : ∀ v, HEv.clear v ∉ h2) :
-    trigOf (h1 ++ HEv.setTrig u :: h2) = true := by
-  have key : ∀ (l : List HEv), (∀ v, HEv.clear v ∉ l) → l.foldl trigStep true = true := by
-    intro l; induction l with
-    | nil => intro _; rfl
-    | cons e l ih =>
-      intro hl
-      have he : trigStep true e = true := by
-        cases e <;> simp [trigStep]
-        rename_i v; exact absurd (List.mem_cons_self) (hl v)
-      simp only [List.foldl_cons, he]
-      exact ih (fun v hv => hl v (List.mem_cons_of_mem _ hv))
-  simp only [trigOf, List.foldl_append, List.foldl_cons]
-  have : trigStep (List.foldl trigStep false h1) (HEv.setTrig u) = true := by simp [trigStep]
-  rw [this]; exact key h2 hno
-
-theorem actOf_after (h1 h2 : List HEv) (u : Tid) (hno : ∀ v, HEv.setInactive v ∉ h2) :
-    actOf (h1 ++ HEv.setActive u :: h2) = true := by
-  have key : ∀ (l : List HEv), (∀ v, HEv.setInactive v ∉ l) → l.foldl actStep true = true := by
-    intro l; induction l with
-    | nil => intro _; rfl
-    | cons e l ih =>
-      intro hl
-      have he : actStep true e = true := by
-        cases e <;> simp [actStep]
-        rename_i v; exact absurd (List.mem_cons_self) (hl v)
-      simp only [List.foldl_cons, he]
-      exact ih (fun v hv => hl v (List.mem_cons_of_mem _ hv))
-  simp only [actOf, List.foldl_append, List.foldl_cons]
-  have : actStep (List.foldl actStep false h1) (HEv.setActive u) = true := by simp [actStep]
-  rw [this]; exact key h2 hno
-
-theorem actOf_after_reset (h1 h2 : List HEv) (u : Tid) (hno : ∀ v, HEv.setActive v ∉ h2) :
-    actOf (h1 ++ HEv.setInactive u :: h2) = false := by
-  have key : ∀ (l : List HEv), (∀ v, HEv.setActive v ∉ l) → l.foldl actStep false = false := by
-    intro l; induction l with
-    | nil => intro _; rfl
-    | cons e l ih =>
-      intro hl
-      have he : actStep false e = false := by
-        cases e <;> simp [actStep]
-        rename_i v; exact absurd (List.mem_cons_self) (hl v)
-      simp only [List.foldl_cons, he]
-      exact ih (fun v hv => hl v (List.mem_cons_of_mem _ hv))
-  simp only [actOf, List.foldl_append, List.foldl_cons]
-  have : actStep (List.foldl actStep false h1) (HEv.setInactive u) = false := by simp [actStep]
-  rw [this]; exact key h2 hno
-
 /-- After a set-triggered step (successful `trigger()`, or the one inside `reset()`), as long as no clear step
 follows it — the property's proviso "not re-activated while they are still blocked" — `triggered` stays
 true and, once the triggerer's `notify_all` is done, `cv_trigger`'s wait set is empty: every thread that was
